@@ -89,6 +89,15 @@ func c13Cases(e *Env) []c13Case {
 		c.Count = 2
 		out = append(out, c)
 	}
+	// a first run that starts at the last of two checkpoint files; the failing statement sits inside that
+	// checkpoint or in a later file
+	for _, mode := range []string{"none", "file"} {
+		for _, bad := range [][2]int{{0, 1}, {1, 0}, {2, 1}} {
+			c := mk([]int{2, 1, 2}, mode, bad[0], bad[1])
+			c.PreJournal, c.Checkpoint, c.Checkpoint2 = true, true, true
+			out = append(out, c)
+		}
+	}
 	// invalid directive combination: txmode none under --tx-mode all
 	c := mk([]int{2, 2}, "all", -1, 0)
 	c.Files[1].Directive = "none"
